@@ -17,14 +17,17 @@ int vp_one;
 #define VP_MAY_THROW_ReadError 1
 #define reader_ReportError(...) VP_THROW(ReadError)
 /* the leaf reader (text or binary): contracts proved by C02.text.* / C02.binary.*; no cursor state is needed at this level */
-static int reader_ReadUInt(void) { int v = nondet_int(); __CPROVER_assume(v >= 0); return v; }
-static int reader_ReadInt_int(void) { return nondet_int(); }
-static double reader_ReadDouble(void) { return nondet_double(); }
-static char reader_ReadChar(void) { return nondet_char(); }
-static void reader_ReadTillEndOfLine(void) {}
+_Bool g_midline;      /* ghost: a record was started on the current line and not yet finished with ReadTillEndOfLine */
+static int reader_ReadUInt(void) { int v = nondet_int(); __CPROVER_assume(v >= 0); g_midline = 1; return v; }
+static int reader_ReadInt_int(void) { g_midline = 1; return nondet_int(); }
+static double reader_ReadDouble(void) { g_midline = 1; return nondet_double(); }
+static char reader_ReadChar(void) {
+  __CPROVER_assert(!g_midline, "a record starts at the beginning of a line: the previous record was consumed up to its end of line");
+  g_midline = 1; return nondet_char(); }
+static void reader_ReadTillEndOfLine(void) { g_midline = 0; }
 /* NLReader::ReadUInt(ub) / ReadUInt(lb, ub): contracts proved by C02.NLReader.ReadUInt_* */
-static int ReadUInt1(unsigned ub) { int v = nondet_int(); __CPROVER_assume(v >= 0 && (unsigned)v < ub); return v; }
-static int ReadUInt2(unsigned lb, unsigned ub) { int v = nondet_int(); __CPROVER_assume(v >= 0 && lb <= (unsigned)v && (unsigned)v < ub); return v; }
+static int ReadUInt1(unsigned ub) { int v = nondet_int(); __CPROVER_assume(v >= 0 && (unsigned)v < ub); g_midline = 1; return v; }
+static int ReadUInt2(unsigned lb, unsigned ub) { int v = nondet_int(); __CPROVER_assume(v >= 0 && lb <= (unsigned)v && (unsigned)v < ub); g_midline = 1; return v; }
 /* overloads of NLReader::ReadUInt selected by the number of arguments */
 #define VP_SEL2(_1, _2, NAME, ...) NAME
 #define ReadUInt(...) VP_SEL2(__VA_ARGS__, ReadUInt2, ReadUInt1)(__VA_ARGS__)
@@ -62,11 +65,11 @@ static int vh_num_items(void) { return g_items; }
 static void vh_SetInitialValue(int index, double v) { ITEM_OK(index); g_count++; }
 ''',
              Fn(NLR, r'void NLReader<Reader, Handler>::ReadInitialValues\(\)', 'void ReadInitialValues(void)',
-                contract='__CPROVER_requires(g_items >= 0 && g_count == 0) __CPROVER_ensures(g_count >= 0 && g_count <= g_items) __CPROVER_assigns(g_count)',
+                contract='__CPROVER_requires(g_items >= 0 && g_count == 0) __CPROVER_ensures(g_count >= 0 && g_count <= g_items && !g_midline) __CPROVER_assigns(g_count, g_midline)',
                 subst=[(r'ValueHandler vh\(\*this\);', '', 1), (r'\bvh\.', 'vh_', -1)] + HANDLE2,
-                loops={0: '__CPROVER_assigns(i, g_count) __CPROVER_loop_invariant(0 <= i && i <= num_values && g_count == i) __CPROVER_decreases(num_values - i)'},
+                loops={0: '__CPROVER_assigns(i, g_count, g_midline) __CPROVER_loop_invariant(0 <= i && i <= num_values && g_count == i && !g_midline) __CPROVER_decreases(num_values - i)'},
                 label='mp::internal::NLReader::ReadInitialValues<ValueHandler>', nmatches=1),
-             'void harness(void) { vp_one = 1; g_items = nondet_int(); g_count = 0; ReadInitialValues(); VP_REACH("normal return"); }\n']
+             'void harness(void) { vp_one = 1; g_items = nondet_int(); g_count = 0; g_midline = 1; ReadInitialValues(); VP_REACH("normal return"); }\n']
     return Harness('C02.NLReader.ReadInitialValues', 'C02', parts, enforce='ReadInitialValues', loop_contracts=True, expect_loop_obligations=1,
                    stubs=['ValueHandler::SetInitialValue (asserts the index range, counts)'])
 
@@ -76,11 +79,11 @@ def h_column_sizes(cum):
 static void size_handler_Add(int size) { __CPROVER_assert(size >= 0, "column size reported to the handler is non-negative"); g_count++; }
 ''',
              Fn(NLR, r'void NLReader<Reader, Handler>::ReadColumnSizes\(\)', 'void ReadColumnSizes(void)',
-                contract='__CPROVER_requires(header_.num_vars >= 1 && g_count == 0) __CPROVER_ensures(g_count == header_.num_vars - 1) __CPROVER_assigns(g_count)',
+                contract='__CPROVER_requires(header_.num_vars >= 1 && g_count == 0) __CPROVER_ensures(g_count == header_.num_vars - 1 && !g_midline) __CPROVER_assigns(g_count, g_midline)',
                 subst=HANDLE2 + [(r'Handler::ColumnSizeHandler size_handler = handler_OnColumnSizes\(\);', '', 1), (r'size_handler\.Add\(', 'size_handler_Add(', 1)],
-                loops={0: '__CPROVER_assigns(i, prev_size, g_count) __CPROVER_loop_invariant(0 <= i && i <= num_sizes && g_count == i && prev_size >= 0) __CPROVER_decreases(num_sizes - i)'},
+                loops={0: '__CPROVER_assigns(i, prev_size, g_count, g_midline) __CPROVER_loop_invariant(0 <= i && i <= num_sizes && g_count == i && prev_size >= 0 && !g_midline) __CPROVER_decreases(num_sizes - i)'},
                 label='mp::internal::NLReader::ReadColumnSizes<CUMULATIVE>', inst='CUMULATIVE=%s' % bool(cum), nmatches=1),
-             'void harness(void) { vp_one = 1; header_.num_vars = nondet_int(); g_count = 0; ReadColumnSizes(); VP_REACH("normal return"); }\n']
+             'void harness(void) { vp_one = 1; header_.num_vars = nondet_int(); g_count = 0; g_midline = 1; ReadColumnSizes(); VP_REACH("normal return"); }\n']
     return Harness('C02.NLReader.ReadColumnSizes.%s' % ('cumulative' if cum else 'plain'), 'C02', parts, enforce='ReadColumnSizes',
                    loop_contracts=True, expect_loop_obligations=1, stubs=['ColumnSizeHandler::Add (asserts size >= 0, counts)'])
 
@@ -91,11 +94,11 @@ static double read_value(void) { return nondet_double(); }
 static void handler_SetValue(int index, double v) { ITEM_OK(index); g_count++; }
 ''',
              Fn(NLR, r'void ReadSuffixValues\(int num_values, int num_items, SuffixHandler &handler\)', 'void ReadSuffixValues(int num_values, int num_items)',
-                contract='__CPROVER_requires(num_items == g_items && num_items >= 0 && num_values >= 0 && g_count == 0) __CPROVER_ensures(g_count == num_values) __CPROVER_assigns(g_count)',
+                contract='__CPROVER_requires(num_items == g_items && num_items >= 0 && num_values >= 0 && g_count == 0 && !g_midline) __CPROVER_ensures(g_count == num_values && !g_midline) __CPROVER_assigns(g_count, g_midline)',
                 subst=[(r'ValueReader read;', '', 1), (r'read\(reader_\)', 'read_value()', 1), (r'handler\.SetValue\(', 'handler_SetValue(', 1)] + HANDLE2,
-                loops={0: '__CPROVER_assigns(i, g_count) __CPROVER_loop_invariant(0 <= i && i <= num_values && g_count == i) __CPROVER_decreases(num_values - i)'},
+                loops={0: '__CPROVER_assigns(i, g_count, g_midline) __CPROVER_loop_invariant(0 <= i && i <= num_values && g_count == i && !g_midline) __CPROVER_decreases(num_values - i)'},
                 label='mp::internal::NLReader::ReadSuffixValues', nmatches=1),
-             'void harness(void) { vp_one = 1; g_items = nondet_int(); g_count = 0; ReadSuffixValues(nondet_int(), g_items); VP_REACH("normal return"); }\n']
+             'void harness(void) { vp_one = 1; g_items = nondet_int(); g_count = 0; g_midline = 0; ReadSuffixValues(nondet_int(), g_items); VP_REACH("normal return"); }\n']
     return Harness('C02.NLReader.ReadSuffixValues', 'C02', parts, enforce='ReadSuffixValues', loop_contracts=True, expect_loop_obligations=1,
                    stubs=['SuffixHandler::SetValue (asserts the index range, counts)'])
 
@@ -113,12 +116,12 @@ static void handler_OnComplementarity(int con_index, int var_index, int info) {
 }
 ''',
              Fn(NLR, r'void NLReader<Reader, Handler>::ReadBounds\(\)', 'void ReadBounds(void)',
-                contract='__CPROVER_requires(g_items >= 0 && header_.num_vars >= 0 && g_count == 0) __CPROVER_ensures(g_count == g_items) __CPROVER_assigns(g_count)',
+                contract='__CPROVER_requires(g_items >= 0 && header_.num_vars >= 0 && g_count == 0) __CPROVER_ensures(g_count == g_items && !g_midline) __CPROVER_assigns(g_count, g_midline)',
                 subst=[(r'BoundHandler bh\(\*this\);', '', 1), (r'\bbh\.', 'bh_', -1), (r'BoundHandler::TYPE', 'BoundHandler_TYPE', 1),
                        (r'ComplInfo\(flags & mask\)', '(flags & mask)', 1)] + HANDLE2,
-                loops={0: '__CPROVER_assigns(i, lb, ub, g_count) __CPROVER_loop_invariant(0 <= i && i <= num_bounds && g_count == i && num_bounds == g_items) __CPROVER_decreases(num_bounds - i)'},
+                loops={0: '__CPROVER_assigns(i, lb, ub, g_count, g_midline) __CPROVER_loop_invariant(0 <= i && i <= num_bounds && g_count == i && num_bounds == g_items && !g_midline) __CPROVER_decreases(num_bounds - i)'},
                 label='mp::internal::NLReader::ReadBounds<BoundHandler>', inst='BoundHandler::TYPE=%s' % ('CON' if con else 'VAR'), nmatches=1),
-             'void harness(void) { vp_one = 1; g_items = nondet_int(); header_.num_vars = nondet_int(); g_count = 0; ReadBounds(); VP_REACH("normal return"); }\n']
+             'void harness(void) { vp_one = 1; g_items = nondet_int(); header_.num_vars = nondet_int(); g_count = 0; g_midline = 1; ReadBounds(); VP_REACH("normal return"); }\n']
     return Harness('C02.NLReader.ReadBounds.%s' % ('con' if con else 'var'), 'C02', parts, enforce='ReadBounds', loop_contracts=True,
                    expect_loop_obligations=1, stubs=['BoundHandler::SetBounds / Handler::OnComplementarity (assert index ranges, count)'])
 
